@@ -169,7 +169,7 @@ func (j *jsonWriter) Enum(enumtag, tag int, value uint32) {
 		if strVal == "" {
 			return fmt.Appendf(b, "\"0x%08X\"", value)
 		}
-		return strconv.AppendQuote(b, strVal)
+		return appendJSONString(b, strVal)
 	})
 }
 
@@ -209,8 +209,20 @@ func (j *jsonWriter) Struct(tag int, f func(writer)) {
 // TextString implements writer.
 func (j *jsonWriter) TextString(tag int, str string) {
 	j.encodeAppend(TypeTextString, tag, func(b []byte) []byte {
-		return strconv.AppendQuote(b, str)
+		return appendJSONString(b, str)
 	})
+}
+
+// appendJSONString appends str to b as a JSON string literal. Go string
+// quoting (strconv.Quote) is not used as its escapes (\x01, \a, \v, \U...)
+// are not valid JSON.
+func appendJSONString(b []byte, str string) []byte {
+	data, err := json.Marshal(str)
+	if err != nil {
+		// Cannot happen: a string is always marshalable.
+		panic(err)
+	}
+	return append(b, data...)
 }
 
 type jsonReader struct {
